@@ -149,6 +149,9 @@ def main(tier):
     # c. literals
     from ..scanners import check_literals
     check_literals(run, m, "C06-c")
+    # the statement is about expressions: their value is that of the standard tree (C04's tables as a premise)
+    from .c04 import precedence_tables
+    precedence_tables(run, F, {"eval_i64": m}, PID)
     report_issues(run, {"eval_i64": m}, tables={"T_eval", "T_prim", "T_lex"})
     run.floor("obligations", run.obligations, 35)
     return run.finish("typed MIR operation census of eval_i64::ast in both overflow configurations + chain table against the checked-operation reference", "./check C06 --tier %s" % tier)
